@@ -1,7 +1,7 @@
 // @gv-module parent=gneiss-mqtt/src/mqtt/publish.rs name=gv_enc_publish pkg=gneiss-mqtt
 //
 // Child module of mqtt/publish.rs (sees the private accessors). C02 / C17: PUBLISH on the wire vs the OASIS layout.
-use super::{write_publish_encoding_steps5, write_publish_encoding_steps311, get_publish_packet_topic, get_publish_packet_response_topic,
+use super::{decode_publish_packet5, decode_publish_packet311, decode_publish_properties, write_publish_encoding_steps5, write_publish_encoding_steps311, get_publish_packet_topic, get_publish_packet_response_topic,
     get_publish_packet_correlation_data, get_publish_packet_content_type, get_publish_packet_user_property, get_publish_packet_payload};
 use crate::encode::{EncodingStep, EncodingContext};
 use crate::alias::OutboundAliasResolution;
@@ -173,3 +173,86 @@ fn c02_publish5_vbi_boundaries() { publish_body_len(true, 0, 4, true, 16, 1, 200
 #[kani::unwind(10)]
 #[kani::stub(std::fmt::format, stub_format)]
 fn c02_publish311_two_byte_length() { publish_body_len(false, 0, 0, true, 8, 1, 200, 5) }
+
+
+// ------------------------------------------------------------------------------------------------
+// C03 / C11: the inbound PUBLISH body decoders on hostile bodies. `decode_publish_properties` is replaced by a recorder
+// (contract: a pure function of the property bytes), so what is decided is the FRAMING of a PUBLISH body: topic, packet id
+// iff QoS > 0, property length (variable byte integer), the property section handed to the property decoder, the payload.
+// ------------------------------------------------------------------------------------------------
+
+static mut PROP_CALLS: u32 = 0;
+static mut PROP_LEN: usize = 0;
+static mut PROP_SUM: u32 = 0;
+fn stub_publish_properties(property_bytes: &[u8], _packet: &mut PublishPacket) -> crate::error::GneissResult<()> {
+    unsafe {
+        PROP_CALLS += 1; PROP_LEN = property_bytes.len();
+        let mut sum = 0u32; let mut i = 0; while i < property_bytes.len() { sum = sum * 31 + property_bytes[i] as u32 + 1; i += 1; }
+        PROP_SUM = sum;
+    }
+    Ok(())
+}
+
+/// body = topic length (2 bytes, concrete TL) + TL symbolic ASCII bytes + [packet id iff qos>0] + REST symbolic bytes; total concrete
+fn publish5_body(qos: u8, tl: usize, rest: usize) {
+    unsafe { PROP_CALLS = 0; PROP_LEN = 0; PROP_SUM = 0; }
+    let flags: u8 = kani::any(); kani::assume(flags & 0xF6 == 0);          // DUP and RETAIN symbolic
+    let first = 0x30u8 | (qos << 1) | flags;
+    let mut body = [0u8; 12];
+    let mut n = 0usize;
+    body[0] = 0; body[1] = tl as u8; n += 2;
+    let mut i = 0; while i < tl { let c: u8 = kani::any(); kani::assume(c >= 0x61 && c <= 0x7a); body[n] = c; n += 1; i += 1; }
+    let pid: u16 = kani::any();
+    if qos > 0 { body[n] = (pid >> 8) as u8; body[n + 1] = pid as u8; n += 2; }
+    let rest_at = n;
+    let mut i = 0; while i < rest { body[n] = kani::any(); n += 1; i += 1; }
+    let r = decode_publish_packet5(first, &body[..n]);
+    // specification: property length is a variable byte integer (1..4 bytes, at most 3 continuation bytes)
+    let mut plen = 0usize; let mut used = 0usize; let mut vli_ok = false;
+    let mut i = 0;
+    while i < 4 && i < rest { let b = body[rest_at + i]; plen |= ((b & 0x7f) as usize) << (7 * i); used = i + 1; if b & 0x80 == 0 { vli_ok = true; break; } i += 1; }
+    let after = rest - used;
+    let expect_ok = vli_ok && plen <= after;
+    kani::cover!(expect_ok && plen > 0 && plen < after, "properties and payload both present");
+    kani::cover!(vli_ok && plen > after, "property length overstated");
+    kani::cover!(!vli_ok, "malformed or truncated property length");
+    assert!(r.is_ok() == expect_ok, "gv: a PUBLISH body is accepted iff its property length is well-formed and fits the bytes that follow it");
+    if let Ok(p) = &r {
+        match &**p {
+            MqttPacket::Publish(x) => {
+                assert!(x.qos as u8 == qos && x.duplicate == (flags & 8 != 0) && x.retain == (flags & 1 != 0), "gv: fixed-header flags decoded faithfully");
+                assert!(x.topic.len() == tl, "gv: topic decoded faithfully");
+                let tb = x.topic.as_bytes(); let mut i = 0; while i < tl { assert!(tb[i] == body[2 + i], "gv: topic decoded faithfully"); i += 1; }
+                assert!(x.packet_id == if qos > 0 { pid } else { 0 }, "gv: packet id present iff QoS > 0");
+                let mut want = 0u32; let mut i = 0; while i < plen { want = want * 31 + body[rest_at + used + i] as u32 + 1; i += 1; }
+                assert!(unsafe { PROP_CALLS } == 1 && unsafe { PROP_LEN } == plen && unsafe { PROP_SUM } == want, "gv: the property decoder sees exactly the announced property section");
+                let pay_len = after - plen;
+                match &x.payload {
+                    None => assert!(pay_len == 0, "gv: payload is everything after the properties"),
+                    Some(v) => { assert!(v.len() == pay_len && pay_len > 0, "gv: payload is everything after the properties");
+                        let mut i = 0; while i < pay_len { assert!(v[i] == body[rest_at + used + plen + i], "gv: payload bytes decoded faithfully"); i += 1; } }
+                }
+            }
+            _ => assert!(false, "gv: PUBLISH decodes to a PUBLISH"),
+        }
+    }
+    std::mem::forget(r);
+}
+
+macro_rules! publishfive_body_harness { ($name:ident, $qos:expr, $tl:expr, $rest:expr) => {
+    #[kani::proof] #[kani::unwind(14)] #[kani::stub(std::fmt::format, stub_format)] #[kani::stub(super::decode_publish_properties, stub_publish_properties)]
+    fn $name() { publish5_body($qos, $tl, $rest); }
+} }
+
+// @gv props=C03,C11,C05 tier=quick required=yes fns=decode_publish_packet5,decode_length_prefixed_string,decode_u16,decode_vli_into_mutable
+// @gv bounds="MQTT5 PUBLISH QoS1, topic of 1 symbolic lower-case letter, symbolic packet id, then 4 symbolic bytes (property length + properties + payload); DUP/RETAIN symbolic; property decoder recorded"
+// @gv timeout=900 mem=8 unwind=14 stubs="std::fmt::format -> stub_format, decode_publish_properties -> recorder"
+publishfive_body_harness!(c03_body_publish5_q1_t1_r4, 1, 1, 4);
+// @gv props=C03,C11,C05 tier=thorough required=no fns=decode_publish_packet5
+// @gv bounds="as c03_body_publish5_q1_t1_r4 for QoS0 (no packet id), topic of 2 letters, 5 symbolic bytes"
+// @gv timeout=1200 mem=10 unwind=14 stubs="std::fmt::format -> stub_format, decode_publish_properties -> recorder"
+publishfive_body_harness!(c03_body_publish5_q0_t2_r5, 0, 2, 5);
+// @gv props=C03,C11,C05 tier=thorough required=no fns=decode_publish_packet5
+// @gv bounds="as c03_body_publish5_q1_t1_r4 for QoS2, empty topic, 3 symbolic bytes"
+// @gv timeout=1200 mem=10 unwind=14 stubs="std::fmt::format -> stub_format, decode_publish_properties -> recorder"
+publishfive_body_harness!(c03_body_publish5_q2_t0_r3, 2, 0, 3);
